@@ -444,6 +444,15 @@ def option_sets(tier, r):
     return out
 
 
+def line_fields(ln):
+    """struct / buffer / options of a driver command line, for replay files."""
+    if not ln:
+        return {}
+    p = ln.split(" ")
+    return {"struct": p[0], "buffer": "" if p[5] == "-" else p[5],
+            "options": dict(zip(("multiline", "comments", "base", "grouping"), (int(x) for x in p[1:5])))}
+
+
 def has_long_array(parsed):
     """Some array with two or more elements occurs in the parsed text."""
     if parsed is None or parsed[0] in ("tok", "empty"):
@@ -605,9 +614,11 @@ def run_modules(chk, mods, buffers_per_struct, r, model_ok, tier, compiler="clan
                 if one.kind != "ok":
                     bad = (ln, one)
                     break
-            chk.violation("input", {"emb": prep["text"], "op": bad[0] if bad else None, "part": "TXT",
-                                    "observed": "%s: %s" % (res.kind, (bad[1].err if bad else res.err)[-2000:]),
-                                    "expected": "no sanitizer report / failed CHECK in text output or input"})
+            rec = {"emb": prep["text"], "op": bad[0] if bad else None, "part": "TXT", "origin": origin,
+                   "observed": "%s: %s" % (res.kind, (bad[1].err if bad else res.err)[-2000:]),
+                   "expected": "no sanitizer report / failed CHECK in text output or input"}
+            rec.update(line_fields(bad[0] if bad else None))
+            chk.violation("input", rec)
             continue
         out = res.out.split("\n")[:-1]
         if len(out) != len(lines):
